@@ -279,4 +279,102 @@ theorem go_render_isValid_eq (r : Root) (i : Nat) (T : String) (vs : List Value)
   · have h' : ¬ (15 : Int) < (vs.length : Int) := by omega
     simp [h, h']
 
+/-! ### `Parse<T>`: one case per constant, the parsable trait constants in trait order, the lower-case block -/
+
+/-- `case "<name>"[, <trait constant>]…: return <name>, nil` -/
+def caseText (c : ParseCase) : List String :=
+  ["\n\tcase \"", c.target.name, "\""] ++ (c.consts.drop 1).flatMap (fun d => [", ", dynTok d]) ++
+    [":\n\t\treturn ", c.target.name, ", nil"]
+
+/-- the `strings.ToLower` switch of the default branch -/
+def lowerText : Option (List (String × Value)) → List String
+  | none => []
+  | some lc =>
+    ["\n\t\tif text, ok := input.(string); ok {\n\t\t\tswitch strings.ToLower(text) {"] ++
+    lc.flatMap (fun p => ["\n\t\t\tcase \"", p.1, "\":\n\t\t\t\treturn ", p.2.name, ", nil"]) ++
+    ["\n\t\t\t}\n\t\t}"]
+
+/-- Go text of `Parse<T>` -/
+def parseText (T : String) (cases : List ParseCase) (lower : Option (List (String × Value))) : List String :=
+  ["\n\n// Parse", T, " will attempt to parse the value of a ", T,
+    " from either its string form\n// or any value of a trait flagged with the --parsableByTrait flag.\nfunc Parse",
+    T, "(input any) (", T, ", error) {\n\tswitch input {"] ++
+  cases.flatMap caseText ++ ["\n\tdefault:"] ++ lowerText lower ++
+  ["\n\t\treturn 0, fmt.Errorf(\"`%+v` could not be parsed to enum of type ", T, "\", input)\n\t}\n}"]
+
+/-- `$traits := index $.Traits $i` -/
+theorem traits_at (r : Root) (i : Nat) (ts : List TraitDesc) (ht : r.traits[i]? = some ts) :
+    indexVal goData (.data (.traitss r.traits)) [.int (i : Int)] = some (.data (.traits ts)) := by
+  simp [indexVal, ht]
+
+/-- `$trait.InstanceOf $val` on the value as the template holds it = the model's `instanceOf` -/
+@[simp] theorem gd_instanceOf (t : TraitDesc) (v : Value) :
+    goData.method (.trait t) "InstanceOf" [.data (.value (abs v))] =
+      some (match t.instanceOf v with
+        | some r => .data (.row r)
+        | none => .data .nilRow) := by
+  simp [goData]
+  rfl
+
+/-- what the trait loop writes inside the case of `v` -/
+def traitPart (v : Value) (t : TraitDesc) : List String :=
+  if t.parsable then (caseOne v t).flatMap (fun d => [", ", dynTok d]) else []
+
+theorem traitPart_flat (ts : List TraitDesc) (v : Value) :
+    ts.flatMap (traitPart v) = (caseConsts ts v).flatMap (fun d => [", ", dynTok d]) := by
+  unfold caseConsts
+  induction ts with
+  | nil => rfl
+  | cons t ts ih =>
+    by_cases hp : t.parsable = true
+    · simp [List.filter_cons, hp, traitPart, ih]
+    · simp [List.filter_cons, hp, traitPart, ih]
+
+theorem go_render_parse_eq (r : Root) (i : Nat) (T : String) (vs : List Value) (ts : List TraitDesc)
+    (hv : r.values[i]? = some vs) (ht : r.traits[i]? = some ts) :
+    renderSec r i T secParse
+      = some (parseText T (vs.map (caseOf ts)) (renderWith dedup r.opts T vs).lowerCases) := by
+  have h1 := values_at r i vs hv
+  have h2 := traits_at r i ts ht
+  tsimp [secParse, h1, h2]
+  rw [rangeLoop_mapped (g := fun v => caseText (caseOf ts v))]
+  · cases hci : r.opts.caseInsensitive
+    · simp [parseText, lowerText, renderWith, hci, List.flatMap_map]
+    · simp only [if_true]
+      rw [rangeLoop_mapped (g := fun v => ["\n\t\t\tcase \"", asciiLower v.name, "\":\n\t\t\t\treturn ", v.name, ", nil"])]
+      · simp [parseText, lowerText, renderWith, hci, List.flatMap_map]
+      · intro j a _; simp
+  · intro j a _
+    simp
+    rw [rangeLoop_mapped (g := traitPart a)]
+    · simp [caseText, caseOf, traitPart_flat]
+    · intro k t _
+      simp [traitPart, caseOne]
+      cases t.parsable
+      · simp
+      · cases t.instanceOf a <;> simp [goData]
+
+/-! ### the trait accessors: one method per trait descriptor, one `case` per row -/
+
+/-- Go text of the accessor of trait `t` -/
+def accessorText (T : String) (t : TraitDesc) : List String :=
+  ["\n\n// ", t.name,
+    " returns the enum's associated trait of the same name.\n// If no trait exists for the enumeration a default value will be returned.\nfunc (e ",
+    T, ") ", t.name, "() ", t.ty, " {\n\tswitch e {"] ++
+  t.rows.flatMap (fun r => ["\n\tcase ", r.owner.name, ":\n\t\treturn ", dynTok r.dyn]) ++
+  ["\n\t}\n\n\treturn *new(", t.ty, ")\n}\n"]
+
+theorem go_render_accessor_eq (r : Root) (i : Nat) (T : String) (vs : List Value) (ts : List TraitDesc)
+    (hv : r.values[i]? = some vs) (ht : r.traits[i]? = some ts) :
+    renderSec r i T secAccessor = some (ts.flatMap (accessorText T)) := by
+  have h1 := values_at r i vs hv
+  have h2 := traits_at r i ts ht
+  tsimp [secAccessor, h1, h2]
+  rw [rangeLoop_mapped (g := accessorText T)]
+  intro j t _
+  simp
+  rw [rangeLoop_mapped (g := fun r => ["\n\tcase ", r.owner.name, ":\n\t\treturn ", dynTok r.dyn])]
+  · simp [accessorText]
+  · intro k row _; simp
+
 end C04TmplTie
